@@ -22,11 +22,11 @@ type pkgFiles struct {
 }
 
 var (
-	fset       = token.NewFileSet()
-	repo       string
-	outDir     string
-	unrecog    []string
-	pkgs       = map[string]*pkgFiles{} // key: relative dir
+	fset    = token.NewFileSet()
+	repo    string
+	outDir  string
+	unrecog []string
+	pkgs    = map[string]*pkgFiles{} // key: relative dir
 )
 
 func unrecognised(f string, a ...interface{}) {
